@@ -1,5 +1,6 @@
 """Per-property registry: which contracts (proof tier) and which bounded drivers decide each property.
-`proof`: list of pyvc targets (contract names in contracts/*.py and harness lemmas); absent => no proof tier yet.
+`proof`: list of pyvc targets (contract names in contracts/*.py, client harnesses, lemmas).  The lemma closure (every lemma a listed unit calls, transitively) is
+added mechanically at the end of this file, so that each property's run verifies every lemma it relies on.
 """
 
 PROPS = {
@@ -325,13 +326,13 @@ PROPS = {
     "C20": dict(title="Library calls are stateless and never modify their arguments", level="other", bounded=["C20"], design="8/C20",
                 proof=["frame:*", "dsw.spiderweb.create_random_shuffles#seed", "dsw.operation.Monitor.__call__#idle", "dsw.operation.Monitor.__call__#running",
                        "lemma.ipow_mono"],
-                explanation="STATIC FRAME PROOF over the real ASTs of EVERY function of dsw/operation.py, graphized.py, spiderweb.py (flow-sensitive may-alias "
+                explanation="STATIC FRAME PROOF over the real ASTs of every module-level function (30) of dsw/operation.py, graphized.py, spiderweb.py (flow-sensitive may-alias "
                             "analysis, numpy views vs copies): (1) every store (item / augmented / del / append / insert / shuffle / attribute) targets an object "
                             "allocated in the current call - never a parameter or a view of one (arc removal excepted for its two documented in-place "
                             "parameters); (2) no global / nonlocal, no read of module-level mutable state, no caching decorator, the global generator is "
                             "used only by the two randomised calls - so each call is a function of its arguments (and the generator state); (3) every "
                             "block guarded by `verbose` consists of print / monitor expression statements only: it binds nothing and cannot leave, so "
-                            "turning progress output on cannot change a result.  In addition the contracts of the functions proved under C01..C18 "
+                            "turning progress output on cannot change a result.  In addition the contracts of the functions proved under C01..C19 "
                             "carry the frame obligation for each of their stores, and create_random_shuffles is proved to depend on (length, seed) "
                             "only.  PROVED on the real Monitor.__call__ (idle and running receiver): under the precondition 'nothing to report yet (current == 0) or a "
                             "non-empty job (total != 0)' its two divisions cannot raise and it returns None; that precondition is an obligation at every "
@@ -350,3 +351,35 @@ NOT_APPLICABLE = {
     "C17": "floating-point convergence of a power iteration to a spectral radius under a spectral-gap precondition: not expressible in the "
            "integer/array/uninterpreted-function theories available to a contract VC generator (DESIGN.md section 10)",
 }
+
+
+def _lemma_closure():
+    """add to every proof list the lemmas its units call (ghost code, lemma proofs, harness sources), transitively."""
+    import importlib
+    import re as _re
+    texts, lemma_names = {}, set()
+    from contracts import lemmas as _lem, harness as _har
+    for L in _lem.LEMMAS:
+        lemma_names.add(L["name"])
+        texts["lemma." + L["name"]] = (L.get("proof") or "") + " " + " ".join(L.get("lemmas", []))
+    for modn in ("operation", "graphized", "spiderweb", "biofilter", "harness"):
+        mod = importlib.import_module("contracts." + modn)
+        for c in mod.CONTRACTS:
+            t = " ".join(str(v) for v in c.get("ghost", {}).values()) + " " + " ".join(c.get("lemmas", []))
+            if c["name"].startswith("harness."):
+                t += " " + _har.SOURCE.get(c["name"], "")
+            texts[c["name"]] = t
+
+    def used(name):
+        return {n for n in lemma_names if _re.search(r"\b" + _re.escape(n) + r"\(", texts.get(name, "")) or n in texts.get(name, "").split()}
+    for P in PROPS.values():
+        todo, have = list(P.get("proof", [])), set(P.get("proof", []))
+        while todo:
+            for n in used(todo.pop()):
+                if "lemma." + n not in have:
+                    have.add("lemma." + n)
+                    P["proof"].append("lemma." + n)
+                    todo.append("lemma." + n)
+
+
+_lemma_closure()
